@@ -29,8 +29,9 @@ RULE = ("expressions from the grammar expr := term ((+|-) term)*, term := factor
         "predecessor kind, grid kind); trivial = a bare number.")
 ASSUMPTIONS = ["tokens Python's float() accepts but a plain reader would not (nan, inf, 1_0, fullwidth digits) and empty tokens "
                "from double spaces are generated but not judged by the validator oracle",
-               "bounding-box edges are kept off the grid coordinates ('inside' is then unambiguous); boxes whose in-box "
-               "cells sum to exactly 0 are the recorded finding D20 (targeted sub-check)",
+               "bounding-box edges are mostly kept off the grid coordinates ('inside' is then unambiguous); for edges exactly on "
+               "grid coordinates both the closed and the open box are admissible (same reading on all four sides); boxes whose "
+               "in-box cells sum to exactly 0 are the recorded finding D20 (targeted sub-check)",
                "NetCDF-3 via scipy only (no h5py)"]
 EXHAUSTIVE_ALL = False
 
@@ -356,6 +357,7 @@ def part_creator(ctx) -> None:
     try:
         for it in range(ctx.pick(36, 300)):
             three_d = rng.random() < 0.4
+            on_grid = False
             zero_case = it % 9 == 8  # targeted sub-check for the zero-sum mechanism
             ds, field, lat, lon, year = write_climatology(scratch, rng, three_d, zero_sum=zero_case)
             if zero_case:
@@ -372,22 +374,38 @@ def part_creator(ctx) -> None:
                 for _try in range(30):
                     i1, i2 = sorted(rng.sample(range(len(lat) + 1), 2))
                     j1, j2 = sorted(rng.sample(range(len(lon) + 1), 2))
+                    if it % 3 == 0 and _try < 20 and (i2 - i1 < 3 or j2 - j1 < 3):
+                        continue  # on-grid cases need an interior
                     sub = field[i1:i2, j1:j2]
                     if sub.size and np.isfinite(sub).any() and np.nansum(sub) != 0:
                         break
                 else:
                     continue
                 bbox = [float(lon[j1]) - 0.25, float(lat[i1]) - 0.25, float(lon[j2 - 1]) + 0.25, float(lat[i2 - 1]) + 0.25]
+                if it % 3 == 0 and i2 - i1 >= 3 and j2 - j1 >= 3:
+                    # edges exactly on grid coordinates: 'inside' may mean the closed or the open box, but the same on
+                    # all four sides -- both readings are admissible, a mixture is not
+                    bbox = [float(lon[j1]), float(lat[i1]), float(lon[j2 - 1]), float(lat[i2 - 1])]
+                    on_grid = True
             path = scratch.path(".nc")
             ds.to_netcdf(path, engine="scipy")
             inbox = field[(lat >= bbox[1]) & (lat <= bbox[3])][:, (lon >= bbox[0]) & (lon <= bbox[2])]
             cells = inbox[np.isfinite(inbox)]
-            stats = {"min": float(cells.min()), "max": float(cells.max()), "mean": float(cells.mean()),
-                     "std": float(np.sqrt(((cells - cells.mean()) ** 2).mean()))}
+            def stats_of(c):
+                return {"min": float(c.min()), "max": float(c.max()), "mean": float(c.mean()),
+                        "std": float(np.sqrt(((c - c.mean()) ** 2).mean()))}
+            stats = stats_of(cells)
+            alt_stats = None
+            if on_grid:
+                ob = field[(lat > bbox[1]) & (lat < bbox[3])][:, (lon > bbox[0]) & (lon < bbox[2])]
+                oc = ob[np.isfinite(ob)]
+                if oc.size == 0 or oc.sum() == 0 or cells.sum() == 0:
+                    continue
+                alt_stats = stats_of(oc)
             start = dt.date(year, 1, 1) + dt.timedelta(days=rng.randrange(0, 365))
             ndays = rng.choice([1, 2, 30, 90, 200, 364, rng.randrange(1, 365)])
             end = start + dt.timedelta(days=ndays)
-            exprs = {}
+            exprs, alt_exprs = {}, {}
             tests = {}
             for tname, fields in (("gross_range_test", ["suspect_min", "suspect_max", "fail_min", "fail_max"]),
                                   ("spike_test", ["suspect_threshold", "fail_threshold"]),
@@ -406,6 +424,11 @@ def part_creator(ctx) -> None:
                             continue
                     tests[tname][f] = " ".join(toks)
                     exprs[(tname, f)] = float(val)
+                    if alt_stats is not None:
+                        try:
+                            alt_exprs[(tname, f)] = float(exact(ast, {k: Fraction(v) for k, v in alt_stats.items()}))
+                        except ZeroDivisionError:
+                            alt_exprs[(tname, f)] = None
                 if tname == "gross_range_test":
                     pass
             if rng.random() < 0.3:
@@ -443,6 +466,17 @@ def part_creator(ctx) -> None:
                         observed[(tname, f)] = s.get(f)
             bad = {f"{k[0]}.{k[1]}": {"expected": v, "observed": observed.get(k)} for k, v in exprs.items()
                    if observed.get(k) is None or not math.isclose(observed[k], v, rel_tol=1e-9, abs_tol=1e-9)}
+            if bad and alt_stats is not None:
+                # second admissible reading: cells on the edges excluded on all four sides
+                bad2 = {f"{k[0]}.{k[1]}": {"expected(open box)": v, "observed": observed.get(k)} for k, v in alt_exprs.items()
+                        if v is None or observed.get(k) is None or not math.isclose(observed[k], v, rel_tol=1e-9, abs_tol=1e-9)}
+                if not bad2:
+                    bad = {}
+                else:
+                    wb["differences_open_box"] = bad2
+                    wb["open_box_stats"] = alt_stats
+            if on_grid:
+                ctx.count("c20.create_config_edges_on_grid")
             if bad:
                 ctx.violation("C20:create_config:spans-differ-from-in-box-statistics", {**wb, "differences": bad})
     finally:
